@@ -494,7 +494,11 @@ def autoforwards_ast(func, func_ast, sig, args=(), kwargs={}):
     finally:
         in_progress.pop()
     if sigs:
-        return _signatures.merge(*sigs)
+        try:
+            return _signatures.merge(*sigs)
+        except ValueError:
+            # the calls found cannot all be satisfied by one signature
+            raise UnknownForwards('Incompatible uses of *args, **kwargs')
     else:
         raise UnknownForwards('No forwarding of *args, **kwargs found')
 
